@@ -21,6 +21,8 @@ type fsInode struct {
 
 type fsState struct {
 	otherFS  map[string]bool
+	links    map[string]string // symbolic links: name -> target name (followed by open/create/stat, not by lstat/remove/rename)
+	linkIno  map[string]*fsInode
 	inodes   []*fsInode
 	names    map[string]*fsInode
 	noParent map[string]bool
@@ -43,6 +45,18 @@ func (e *Exec) fs() *fsState {
 		e.extra["fs"] = f
 	}
 	return f
+}
+
+// resolve follows symbolic links (at most a few levels)
+func (f *fsState) resolve(name string) string {
+	for i := 0; i < 4; i++ {
+		t, ok := f.links[name]
+		if !ok {
+			return name
+		}
+		name = t
+	}
+	return name
 }
 
 func (e *Exec) fsFault(op string) bool {
@@ -104,10 +118,29 @@ func init() {
 		f.names[name] = ino
 		return a[0]
 	}
-	// vxFSAlias(newName, oldName string, kind int) string: newName resolves to the same inode as oldName
+	// vxFSAlias(newName, oldName string, kind int) string: newName resolves to the same file as oldName
+	// (kind 0: other spelling of the same path, 1: symbolic link, 2: hard link, 3: symbolic link that lives on the other file system)
 	vxAPI["vxFSAlias"] = func(e *Exec, fn *ssa.Function, a []Value) Value {
 		f := e.fs()
-		f.names[e.concStr(a[0], "vxFSAlias")] = f.names[e.concStr(a[1], "vxFSAlias")]
+		nn, on, kind := e.concStr(a[0], "vxFSAlias"), e.concStr(a[1], "vxFSAlias"), e.concInt(a[2])
+		if kind == 1 || kind == 3 {
+			if f.links == nil {
+				f.links = map[string]string{}
+				f.linkIno = map[string]*fsInode{}
+			}
+			f.links[nn] = on
+			ino := &fsInode{id: len(f.inodes)}
+			f.inodes = append(f.inodes, ino)
+			f.linkIno[nn] = ino
+			if kind == 3 {
+				if f.otherFS == nil {
+					f.otherFS = map[string]bool{}
+				}
+				f.otherFS[nn] = true
+			}
+			return a[0]
+		}
+		f.names[nn] = f.names[on]
 		return a[0]
 	}
 	vxAPI["vxFSMissing"] = func(e *Exec, fn *ssa.Function, a []Value) Value { return a[0] }
@@ -129,7 +162,7 @@ func init() {
 	}
 	// vxFSRead(name) ([]byte, bool): content and existence of a regular file
 	vxAPI["vxFSRead"] = func(e *Exec, fn *ssa.Function, a []Value) Value {
-		ino, ok := e.fs().names[e.concStr(a[0], "vxFSRead")]
+		ino, ok := e.fs().names[e.fs().resolve(e.concStr(a[0], "vxFSRead"))]
 		if !ok || ino.isDir {
 			return Tuple{Slice{}, Bool{C: false}}
 		}
@@ -140,15 +173,15 @@ func init() {
 	}
 	vxAPI["vxFSSame"] = func(e *Exec, fn *ssa.Function, a []Value) Value {
 		f := e.fs()
-		x, ok1 := f.names[e.concStr(a[0], "vxFSSame")]
-		y, ok2 := f.names[e.concStr(a[1], "vxFSSame")]
+		x, ok1 := f.names[f.resolve(e.concStr(a[0], "vxFSSame"))]
+		y, ok2 := f.names[f.resolve(e.concStr(a[1], "vxFSSame"))]
 		return Bool{C: ok1 && ok2 && x == y}
 	}
 
 	reg("os.Open", func(e *Exec, fn *ssa.Function, a []Value) Value {
 		name := e.concStr(a[0], "os.Open")
 		f := e.fs()
-		ino, ok := f.names[name]
+		ino, ok := f.names[f.resolve(name)]
 		if !ok {
 			return Tuple{Ptr{}, e.pathErr("open", name, "no such file or directory")}
 		}
@@ -163,7 +196,8 @@ func init() {
 		if f.noParent[name] {
 			return Tuple{Ptr{}, e.pathErr("open", name, "no such file or directory")}
 		}
-		ino, ok := f.names[name]
+		rname := f.resolve(name)
+		ino, ok := f.names[rname]
 		if ok && ino.isDir {
 			return Tuple{Ptr{}, e.pathErr("open", name, "is a directory")}
 		}
@@ -173,7 +207,7 @@ func init() {
 		if !ok {
 			ino = &fsInode{id: len(f.inodes)}
 			f.inodes = append(f.inodes, ino)
-			f.names[name] = ino
+			f.names[rname] = ino
 		}
 		ino.content = nil // O_TRUNC on whatever the name resolves to
 		return Tuple{e.newFile(fn, 0, &fsHandle{ino: ino, write: true}), Iface{}}
@@ -217,6 +251,19 @@ func init() {
 		if !ok {
 			return e.pathErr("rename", from, "no such file or directory")
 		}
+		if _, isLink := f.links[to]; isLink {
+			// renaming onto a symbolic link replaces the link itself (it is a different file than the source)
+			if f.otherFS[to] != f.otherFS[from] {
+				return e.pathErr("rename", from, "invalid cross-device link")
+			}
+			if e.fsFault("rename") {
+				return e.pathErr("rename", from, "invalid cross-device link")
+			}
+			delete(f.links, to)
+			f.names[to] = src
+			delete(f.names, from)
+			return Iface{}
+		}
 		if f.noParent[to] {
 			return e.pathErr("rename", to, "no such file or directory")
 		}
@@ -239,6 +286,13 @@ func init() {
 	reg("os.Remove", func(e *Exec, fn *ssa.Function, a []Value) Value {
 		name := e.concStr(a[0], "os.Remove")
 		f := e.fs()
+		if _, isLink := f.links[name]; isLink {
+			if e.fsFault("remove") {
+				return e.pathErr("remove", name, "injected fault")
+			}
+			delete(f.links, name)
+			return Iface{}
+		}
 		if _, ok := f.names[name]; !ok {
 			return e.pathErr("remove", name, "no such file or directory")
 		}
@@ -262,9 +316,21 @@ func init() {
 		}
 		return Tuple{mkInfo(e, fn, h.ino), Iface{}}
 	})
+	reg("os.Lstat", func(e *Exec, fn *ssa.Function, a []Value) Value {
+		name := e.concStr(a[0], "os.Lstat")
+		f := e.fs()
+		if _, isLink := f.links[name]; isLink {
+			return Tuple{mkInfo(e, fn, f.linkIno[name]), Iface{}} // the link itself: a different file than its target
+		}
+		ino, ok := f.names[name]
+		if !ok {
+			return Tuple{Iface{}, e.pathErr("lstat", name, "no such file or directory")}
+		}
+		return Tuple{mkInfo(e, fn, ino), Iface{}}
+	})
 	statFn := func(e *Exec, fn *ssa.Function, a []Value) Value {
 		name := e.concStr(a[0], "os.Stat")
-		ino, ok := e.fs().names[name]
+		ino, ok := e.fs().names[e.fs().resolve(name)]
 		if !ok {
 			return Tuple{Iface{}, e.pathErr("stat", name, "no such file or directory")}
 		}
@@ -274,7 +340,6 @@ func init() {
 		return Tuple{mkInfo(e, fn, ino), Iface{}}
 	}
 	reg("os.Stat", statFn)
-	reg("os.Lstat", statFn) // the stub does not distinguish symbolic links from other aliases
 	reg("os.SameFile", func(e *Exec, fn *ssa.Function, a []Value) Value {
 		get := func(v Value) *fsInode {
 			if iv, ok := v.(Iface); ok {
